@@ -1892,10 +1892,11 @@ func (c *immuClient) VerifiedZAddAt(ctx context.Context, set []byte, score float
 
 	req := &schema.VerifiableZAddRequest{
 		ZAddRequest: &schema.ZAddRequest{
-			Set:   set,
-			Score: score,
-			Key:   key,
-			AtTx:  atTx,
+			Set:      set,
+			Score:    score,
+			Key:      key,
+			AtTx:     atTx,
+			BoundRef: atTx > 0,
 		},
 		ProveSinceTx: state.TxId,
 	}
